@@ -323,6 +323,13 @@ func init() {
 		_, op := a[0].(Opaque)
 		return ret(Bool(op))
 	})
+	regIntrinsic(ndName("MulAddClamp64"), func(w *Worker, st *State, f *Frame, x *ssa.Call, fv FuncV, a []Value) (Value, bool) {
+		p := Add(Mul(SExt(needTerm(a[0], "spec"), 128), SExt(needTerm(a[1], "spec"), 128)), SExt(needTerm(a[2], "spec"), 128))
+		maxv := SExt(Const(64, 0x7fffffffffffffff), 128)
+		minv := SExt(Const(64, 0x8000000000000000), 128)
+		r := Ite(Slt(maxv, p), Const(64, 0x7fffffffffffffff), Ite(Slt(p, minv), Const(64, 0x8000000000000000), Extract(p, 63, 0)))
+		return ret(r)
+	})
 	regIntrinsic(ndName("Thorough"), func(w *Worker, st *State, f *Frame, x *ssa.Call, fv FuncV, a []Value) (Value, bool) {
 		return ret(Bool(theTier == "thorough"))
 	})
